@@ -346,12 +346,19 @@ func loadKnown(path string) map[string]string {
 	return out
 }
 
-func loadConcrete(path string) map[string]uint64 {
+// loadConcrete reads the "inputs" of a replay file (or a bare name->string map).
+func loadConcrete(path string) map[string]string {
 	data, err := os.ReadFile(path)
 	if err != nil {
 		fatalf("%v", err)
 	}
-	m := map[string]uint64{}
+	var rf struct {
+		Inputs map[string]string `json:"inputs"`
+	}
+	if err := json.Unmarshal(data, &rf); err == nil && rf.Inputs != nil {
+		return rf.Inputs
+	}
+	m := map[string]string{}
 	if err := json.Unmarshal(data, &m); err != nil {
 		fatalf("inputs: %v", err)
 	}
